@@ -1000,7 +1000,7 @@ RUST_KEYWORDS = ("as break const continue crate else enum extern false fn for if
 def c02_keyword_cases(tier):
     """every Rust keyword (strict, reserved, 2018+, `gen`) as a field name, an alias, a variable name and an input-object field name: the
     generated members must be identifiers, i.e. none of them may be a bare keyword (`pub ref: ..` does not parse)"""
-    kws = [k for k in RUST_KEYWORDS if k not in ("true", "false")]    # `true` / `false` are not GraphQL names for fields? they are: kept out only because graphql-parser reads them as booleans in value position
+    kws = [k for k in RUST_KEYWORDS if k not in ("true", "false", "Self")]    # `self` and `Self` snake-case to one identifier: two such members are the schema author's problem    # `true` / `false` are not GraphQL names for fields? they are: kept out only because graphql-parser reads them as booleans in value position
     fields = " ".join("%s: Int" % k for k in kws)
     schema = "type K { %s plain: Int } input KI { %s } type Query { k(i: KI): K }" % (fields, fields)
     half = len(kws) // 2
@@ -1412,6 +1412,8 @@ def c12_all_cases(tier):
     ]
     for q in queries:
         case = {"schema": schema, "query": q, "options": {"mode": "cli"}}
+        if "T" in q.split()[1] and "fragment I" in q:
+            case["known"] = "C12-mutual-fragment-recursion"     # open known finding, probed on its own (lib/vxextra.py c12_mutual)
 
         def oracle(res, q=q):
             if res.get("timeout") or res["exit"] != 0:
